@@ -28,6 +28,51 @@ META = {
         text="Single-feature worlds with an indicator composition and tag. Membership is asserted in both directions (inside => painted, outside => untouched) over all lattice and half-lattice points around generated simple polygons (convex/concave, both orientations, footprints written across and beyond +-180) and closed depth intervals incl. the end points and their floating-point neighbours; plumes against the interpolated ellipse with cyclic rotation-angle interpolation, head half-ellipsoid and continuation below the deepest section.",
         note="Boundary points only where coordinates are exactly representable; elsewhere a 1e-9 band is skipped. Plume longitude aliases are left to C08.",
         design="DESIGN.md section 4, C04"),
+    "C05": dict(
+        technique="property-based testing (rapidcheck, one process per case): reference closed forms written from the parameter documentation (uniform, adiabatic, linear, Chapman, half-space erfc, converged plate-cooling Fourier series with a measured truncation allowance, Gaussian plume, slab/fault distance models, uniform grains/velocity)",
+        text="Single-feature worlds with exactly one model under test, parameters over the documented domain incl. the 'negative means adiabatic/global' sentinels, model ranges wider/narrower/shifted against the feature range and add/subtract over the background; interior points by construction. The returned value must equal the documented expression (1e-10 .. 1e-8 relative); outside the model's own range the background must come back unchanged.",
+        note="Where the documentation is not specific (smooth composition shape, Euler convention, slab/fault sentinel depths) only the documented part is asserted. Ridge models: cartesian worlds with a ridge along x = const. Slab/fault distances from the planar construction validated by C06.",
+        design="DESIGN.md section 4, C05"),
+    "C06": dict(
+        technique="property-based testing (rapidcheck, one process per case): independent planar reference construction (straight lines and circular arcs in the plane perpendicular to the trench) compared with World::distance_to_plane and with membership via the tag",
+        text="Slabs and faults on straight cartesian trenches of any position/azimuth/length and dip side, 1-4 segments (dips 5-175 degrees, arcs and kinks), thickness and top-truncation pairs, min depth up to 300 km; points generated in slab coordinates (on, just off and far from the surface, beyond the tip and the trench ends). Both reported distances must equal the construction to 1 mm + 1e-9 scale and membership must follow the statement's rule.",
+        note="Cartesian only; feet within 0.1% of a trench end, 1 mm of a segment end or ties within 1 m are skipped. Exactly collinear intermediate coordinates are a listed finding (kept at 10% of the cases).",
+        design="DESIGN.md section 4, C06"),
+    "C07": dict(
+        technique="differential property-based testing (rapidcheck): the same world file built with and without the culling bounds (GWB_VERIF hook) must answer bit-identically; kd-tree guided surface lookup vs brute-force scan of the surface's own triangles",
+        text="Curved slabs/faults in both coordinate systems (high latitudes, next to +-180, deep starts, long shallow north-south slabs) probed at the rim of the region a member can occupy and near the slab tip; Objects::Surface objects built from generated node sets incl. spherical sets written beyond +-pi with queries normalised as callers do.",
+        note="The hook replaces bounding box and length cut-off by infinite bounds at parse time; area-feature min/max pre-tests are covered through the surface lookup and by C11's bisection probe.",
+        design="DESIGN.md section 4, C07"),
+    "C10": dict(
+        technique="metamorphic property-based testing (rapidcheck, one process per case): re-layout of the same feature (inherited models pushed down, default segments repeated as explicit sections), locality of a section override, convexity/own-value checks on uniform section values and on thickness/top truncation via membership",
+        text="Slabs and faults with 2-5 coordinates, 1-3 segments and uniform temperature/composition/grains/velocity models at feature, section and segment level in random combinations. Re-layouts must not change any answer; values beside the trench must lie in the hull of the adjacent sections and equal a section's own value at its coordinate; changing one section must not change answers beyond its neighbours; membership must follow each section's own thickness/top truncation beside its coordinate and a convex combination in between.",
+        note="Trenches bend by at most 25 degrees, moderate latitudes; probes 2-30 km beside the trench.",
+        design="DESIGN.md section 4, C10"),
+    "C11": dict(
+        technique="property-based testing (rapidcheck): Objects::Surface against nodal values / bounds / affine reproduction, and world-level bisection on the membership indicator to locate the depth surface actually used",
+        text="Surfaces from 3-40 listed points (lattice, arbitrary metres, radians) and area features of all three types in both coordinate systems whose min or max depth is given at interior points and corners: listed value at listed points, bare default at unlisted corners, corner override, bounds, exact reproduction of affine data whatever the triangulation.",
+        note="Spherical boundary nodes are probed 1e-7 inside. Two listed findings: corner with a zero coordinate (approx(0,0)), value point on a polygon edge (triangulator drops it).",
+        design="DESIGN.md section 4, C11"),
+    "C14": dict(
+        technique="property-based generation (rapidcheck) of concurrent query streams executed under ThreadSanitizer behind a barrier, plus differential gwb-grid -j N vs -j 1 on the ThreadSanitizer build",
+        text="2-32 threads each issue their own generated stream of batched 2D/3D requests and distance_to_plane calls against one world (shared pool of points inside the features), twice; no ThreadSanitizer report and every answer bit-equal to the single-thread answer. gwb-grid with node counts below/equal/not divisible by/far above the thread count writes byte-identical files for every -j.",
+        note="Schedules are sampled, not enumerated; a race on a path no generated query executes stays invisible.",
+        design="DESIGN.md section 4, C14"),
+    "C17": dict(
+        technique="property-based testing (rapidcheck) of the gwb-dat executable: generated world + data file, header-driven comparison of every printed token with the library's values formatted the same way; negative class of malformed rows",
+        text="Data files with dim 2/3, 0-5 compositions, grain sets, convert spherical, comma/space separated, option lines in any order, comments, numbers in four spellings. Header names must be the requested columns, each row must repeat the input tokens and list the library's values under those names; malformed rows must be reported.",
+        note="Two listed findings (3D header announces 'g'; 2D composition/grain columns shifted): the check classifies exactly those layouts and verifies everything else against them.",
+        design="DESIGN.md section 4, C17"),
+    "C18": dict(
+        technique="property-based testing (rapidcheck) of the gwb-grid executable: generated world + grid file, VTU reader, reference lattice per grid type, library values at the lattice nodes, recomputation of the filtered / by-tag cell sets",
+        text="Cartesian and chunk grids in 2D/3D, annulus, sphere; bounds, cell counts, compositions, -j, --filtered/--by-tag. Well-formed mesh, node multiset equals the requested lattice, cell count, Depth, every node value equals the library's answer, filtered/by-tag files contain exactly the selected cells with unchanged node values.",
+        note="ASCII output (6 digits): 2e-5 relative tolerance, boundary-ambiguous nodes skipped. Sphere grids: lattice not re-derived.",
+        design="DESIGN.md section 4, C18"),
+    "C20": dict(
+        technique="property-based testing (rapidcheck, one process per case): envelope, monotonicity (paired probes) and boundary-value invariants on cooling models",
+        text="Oceanic half-space / plate / constant-age / linear models with ordered end members: value inside [top, bottom], rising with depth, falling with age, boundary temperatures attained; slab mass-conserving and plate models between the surface temperature and the background adiabat wherever they change the temperature.",
+        note="Gibbs allowance for the 100-term series near the surface; boundary values asserted for min depth 0 / constant max depth only.",
+        design="DESIGN.md section 4, C20"),
     "C08": dict(
         technique="metamorphic property-based testing (rapidcheck, one process per case): world file and query moved by a generated rigid motion / longitude offset, answers compared with a boundary-robust tolerance",
         text="Generated worlds (every feature and model type, ridges, dip points, curved trenches, cross section) are rewritten under a rotation about the vertical plus translation (cartesian) or a common longitude offset (spherical; most offsets carry a feature onto +-180, beyond it, or a full turn) and queried at the moved points: temperature, compositions, grains and the tag string must agree to 1e-6/1e-7 relative.",
@@ -98,7 +143,11 @@ def main():
                    add_only=True),
         engines=[
             dict(name="rc", path="engine/props", serves_properties=[p for p in ALL if vfdriver.PROPS.get(p, {}).get("engine") == "rc"],
-                 kind_free_text="rapidcheck property executables linked against the library built from /repo's working tree; cases are plain JSON so shrunk failures replay without the library"),
+                 kind_free_text="rapidcheck property executables linked against the library built from /repo's working tree; cases are plain JSON so shrunk failures replay without the library; world-level checks run every case in a forked child"),
+            dict(name="libfuzzer", path="engine/fuzz", serves_properties=["C12", "C13"],
+                 kind_free_text="libFuzzer targets built with ASan+UBSan (asan flavour): byte-level world-file target and structure-aware target sharing the generators"),
+            dict(name="tsan", path="engine/tsan", serves_properties=["C14"],
+                 kind_free_text="ThreadSanitizer build of the library, a thread harness and gwb-grid"),
         ],
         checks=checks,
         notes="All checks rebuild the library from /repo's working tree (CMake+Ninja, incremental) before running. known_findings.jsonl lists genuine defects that are reported as KNOWN-FINDING lines; fixed entries suppress nothing.",
